@@ -64,6 +64,10 @@ def run(ctx):
         if it % 5 == 2 and not dark:          # real-valued (float dtype) field and noise
             s = np.abs(s.real) + 0.01
             nz = None if nz is None else nz.real.copy()
+        intfield = it % 5 == 4 and not dark
+        if intfield:          # a field stored as integers (sqrt(W) units), integer-typed responsivity and load: nothing may be truncated
+            s = np.round(np.abs(s.real) * 100).astype(np.int64) + 1
+            nz = None if nz is None else np.round(nz.real * 500).astype(np.int64)
         x = optical_signal(s if npol == 2 else s[0], None if nz is None else (nz if npol == 2 else nz[0]))
         for a in (x.signal, x.noise):
             if a is not None:
@@ -72,6 +76,8 @@ def run(ctx):
         shown = [sel, sel.upper(), sel.title()][it % 3]
         r_, Tk, RL = rnd.choice([1.0, 0.5, 0.9]), rnd.choice([300.0, 77.0, 400.0]), rnd.choice([50.0, 1e3, 10.0])
         BW, idark, Fn = rnd.uniform(0.05, 0.45) * fs, rnd.choice([10e-9, 0.0, 1e-6]), rnd.choice([0, 3.0, 6])
+        if intfield:
+            r_, RL, Tk = 1, rnd.choice([50, 10]), rnd.choice([300, 77])
         if dark:
             idark = rnd.choice([10e-9, 1e-6])
         np.random.seed(it)
@@ -135,7 +141,7 @@ def run(ctx):
         events.append({"kind": "call", "sel": sel, "len_ok": True, "gauss": gauss, "remainder_ppt": int(min(10 ** 9, np.max(np.abs(resid)) / scale * 1e12)),
                        "offset_ppm": offset_ppm})
         meta.append(("call", sel, npol, noisy))
-        ctx.case(("call", sel, npol, noisy, it % 3, idark > 0, Fn > 0, dark), {"PD": {"include_noise": shown, "r": r_, "T": Tk, "R_load": RL, "BW": BW, "i_dark": idark, "Fn": Fn, "n": n, "npol": npol}})
+        ctx.case(("call", sel, npol, noisy, it % 3, idark > 0, Fn > 0, dark, intfield), {"PD": {"include_noise": shown, "r": r_, "T": Tk, "R_load": RL, "BW": BW, "i_dark": idark, "Fn": Fn, "n": n, "npol": npol}})
     # ------------------------------------------------------------------ laws
     for it in range(300 if T else 24):
         setgv(it)
